@@ -120,6 +120,9 @@ func craft(typ, name, rule string, edit func(root *node) (*node, error)) {
 	}
 	ev := map[string]any{"typ": typ, "name": c.name, "grp": c.group, "rule": rule, "must": must, "res": o.res, "valid": o.valid, "regen": o.regen,
 		"panic": o.panic_, "hex": hexCap(b, 6000), "detail": o.detail}
+	if o.panic_ {
+		ev["site"] = siteOf(o.detail)
+	}
 	emit("craft", ev)
 }
 
